@@ -175,7 +175,7 @@ def rpc_type_imports(a):
     a.need_module('google.type.latlng_pb2')
     a.msg(message('Visit', [field('status', 1, '.google.rpc.Status'), field('day', 2, '.google.type.Date'),
                             field('where', 3, '.google.type.LatLng'), field('name', 4, 'string')]))
-    a.rpc(method('RecordVisit', Q('Visit'), Q('Visit'), http=('post', '/v1/{name=visits/*}', '*'), sigs=['day,where']))
+    a.rpc(method('RecordVisit', Q('Visit'), Q('Visit'), http=('post', '/v1/{name=visits/*}', '*'), sigs=['name,day,where']))
 
 
 @edit
